@@ -35,8 +35,6 @@ type Url struct {
 	searchParams     *SearchParams
 	validationErrors []error
 	parser           *parser
-	isIPv4           bool
-	isIPv6           bool
 }
 
 // Href implements WHATWG url api (https://url.spec.whatwg.org/#api)
@@ -302,12 +300,14 @@ func (u *Url) newUrlSearchParams() {
 	u.searchParams = usp
 }
 
+// IsIPv4 tells if the URL is special and its host is an IPv4 address.
 func (u *Url) IsIPv4() bool {
-	return u.isIPv4
+	return u.host != nil && u.IsSpecialScheme() && isSerializedIPv4(*u.host)
 }
 
+// IsIPv6 tells if the host is an IPv6 address.
 func (u *Url) IsIPv6() bool {
-	return u.isIPv6
+	return u.host != nil && strings.HasPrefix(*u.host, "[") && strings.HasSuffix(*u.host, "]")
 }
 
 // Clone returns a deep copy of the URL.
@@ -324,8 +324,6 @@ func (u *Url) Clone() *Url {
 		query:       cloneStringPointer(u.query),
 		fragment:    cloneStringPointer(u.fragment),
 		parser:      u.parser,
-		isIPv4:      u.isIPv4,
-		isIPv6:      u.isIPv6,
 	}
 	if u.searchParams != nil {
 		c.searchParams = u.searchParams.cloneFor(c)
